@@ -25,6 +25,7 @@ type Contract struct {
 	LoopDec   map[int]ast.Expr
 	Overflow  bool
 	MayPanic  bool
+	Watch     bool
 	Recovers  bool
 	SrcLine   int
 	AtCallDo  map[string][]GhostSet // ghost assignments right after a call to the named callee
@@ -522,6 +523,10 @@ func parseContracts(path string, unit string) (map[string]*Contract, error) {
 			cur.Overflow = true
 		case "may_panic":
 			cur.MayPanic = true
+		case "watch":
+			// a contract that instruments calls the code is NOT expected to make (counting header edits, say): it is not
+			// reported as unused when no such call exists
+			cur.Watch = true
 		case "recovers":
 			cur.Recovers = true
 		case "ensures_on_panic":
